@@ -10,9 +10,14 @@ open Kripke
 def Sem (E : Env) (a U : CSet) (φ : Point → Prop) : Prop :=
   ∀ p ∈ E.pts, (a p = true ↔ (U p = true ∧ φ p))
 
+/-- `st` is the set of steady points of the top-level unit `U0` -/
+def SteadyOK (E : Env) (U0 st : CSet) : Prop :=
+  ∀ p ∈ E.pts, (st p = true ↔ (U0 p = true ∧ E.G.isSteady p.c p.s))
+
 /-- what is needed of a unit set at quantifier nesting depth `d`: it constrains colours and the
 variables of the enclosing quantifiers only -/
-structure UnitOK (E : Env) (U0 U : CSet) (d : Nat) : Prop where
+structure UnitOK (E : Env) (U0 st U : CSet) (d : Nat) : Prop where
+  steady : SteadyOK E U0 st
   stateIndep : ∀ p ∈ E.pts, ∀ t, t < E.G.nS → U (p.setS t) = U p
   indepFrom : ∀ p ∈ E.pts, ∀ i t, d ≤ i → t < E.G.nS → U (p.setV i t) = U p
   sub0 : ∀ p ∈ E.pts, U p = true → U0 p = true
@@ -115,10 +120,11 @@ theorem mem_steady {U0 : CSet} {p : Point} :
   simp only [Ops.steadyOf, Bool.and_eq_true, all_range_iff, Graph.isSteady, Option.isNone_iff_eq_none]
 
 /-- `eval_ex` = one step of the relation with self-loops, for sets inside the unit -/
-theorem mem_evalEx {U0 a : CSet} (ha0 : ∀ p ∈ E.pts, a p = true → U0 p = true) {p : Point} (hp : p ∈ E.pts) :
-    Ops.evalEx E a (Ops.steadyOf E U0) p = true ↔ ∃ t, E.G.R p.c p.s t ∧ a (p.setS t) = true := by
+theorem mem_evalEx {U0 st a : CSet} (hst : SteadyOK E U0 st)
+    (ha0 : ∀ p ∈ E.pts, a p = true → U0 p = true) {p : Point} (hp : p ∈ E.pts) :
+    Ops.evalEx E a st p = true ↔ ∃ t, E.G.R p.c p.s t ∧ a (p.setS t) = true := by
   simp only [Ops.evalEx, CSet.union, CSet.inter, Bool.or_eq_true, Bool.and_eq_true]
-  rw [mem_pre hE hG, mem_steady hE hG]
+  rw [mem_pre hE hG, hst p hp]
   constructor
   · rintro (⟨t, hs, ht⟩ | ⟨hap, _, hst⟩)
     · exact ⟨t, Or.inl hs, ht⟩
@@ -127,10 +133,10 @@ theorem mem_evalEx {U0 a : CSet} (ha0 : ∀ p ∈ E.pts, a p = true → U0 p = t
     · exact Or.inl ⟨t, hs, ht⟩
     · exact Or.inr ⟨by simpa using ht, ha0 p hp (by simpa using ht), hst⟩
 
-theorem sem_ex {U0 U a : CSet} {d : Nat} {φ : Point → Prop} (hU : UnitOK E U0 U d) (ha : Sem E a U φ) :
-    Sem E (Ops.evalEx E a (Ops.steadyOf E U0)) U (fun p => ∃ t, E.G.R p.c p.s t ∧ φ (p.setS t)) := by
+theorem sem_ex {U0 st U a : CSet} {d : Nat} {φ : Point → Prop} (hU : UnitOK E U0 st U d) (ha : Sem E a U φ) :
+    Sem E (Ops.evalEx E a st) U (fun p => ∃ t, E.G.R p.c p.s t ∧ φ (p.setS t)) := by
   intro p hp
-  rw [mem_evalEx hE hG (fun q hq h => hU.sub0 q hq (ha.sub q hq h)) hp]
+  rw [mem_evalEx hE hG hU.steady (fun q hq h => hU.sub0 q hq (ha.sub q hq h)) hp]
   constructor
   · rintro ⟨t, hR, hat⟩
     have hq := setS_mem' hE hG hp (R_lt hE hG hp hR)
@@ -140,8 +146,8 @@ theorem sem_ex {U0 U a : CSet} {d : Nat} {φ : Point → Prop} (hU : UnitOK E U0
     have hq := setS_mem' hE hG hp (R_lt hE hG hp hR)
     exact ⟨t, hR, (ha _ hq).mpr ⟨by rw [hU.stateIndep p hp t (R_lt hE hG hp hR)]; exact hu, hφ⟩⟩
 
-theorem sem_ax {U0 U a : CSet} {d : Nat} {φ : Point → Prop} (hU : UnitOK E U0 U d) (ha : Sem E a U φ) :
-    Sem E (Ops.evalAx E U a (Ops.steadyOf E U0)) U (fun p => ∀ t, E.G.R p.c p.s t → φ (p.setS t)) := by
+theorem sem_ax {U0 st U a : CSet} {d : Nat} {φ : Point → Prop} (hU : UnitOK E U0 st U d) (ha : Sem E a U φ) :
+    Sem E (Ops.evalAx E U a st) U (fun p => ∀ t, E.G.R p.c p.s t → φ (p.setS t)) := by
   have h := sem_neg (sem_ex hE hG hU (sem_neg ha))
   refine h.iff (fun p _ _ => ?_)
   constructor
